@@ -14,7 +14,7 @@ namespace Flatland.C20
 
 abbrev Str := List Char
 
-inductive Err | typeError
+inductive Err | typeError | keyError | valueError | attributeError
   deriving DecidableEq, Repr, Inhabited
 
 /-- the four keyword arguments; `[]` stands for both `None` and an empty collection, because the
@@ -180,5 +180,125 @@ def setByObject {V} (S : Schema V) (e : Elem V) (o : Obj V) (a : Args) : SetByRe
       let final := dictOf (sliced.filter fun p => fields.contains p.1)  -- `if key in fields`
       let r := dictSetValue S final
       ⟨cand, r.1, r.2⟩
+
+/-! ### failure paths (h10)
+
+The functions above take a key function that always returns (`Str → Str`) and well-formed
+arguments.  The `…P` versions below follow the same code with everything that can raise on the
+way: a key function that raises for some names (a lookup table without an entry: KeyError; an
+unhashable result: TypeError at `key in rename` / `key in include` / `key in omit` / `dict(sliced)`,
+whichever comes first — all inside `slice()`), `include` / `omit` / `rename` in a form that `set()` /
+`dict(to_pairs())` reject, a `setattr` that the object rejects, an attribute read that raises
+something else than AttributeError.  `Proofs/C20Fail.lean` shows that they coincide with the
+functions above when nothing raises. -/
+
+/-- `keyfunc(key)` as it may turn out: a key, or the exception that comes out of the call / of the
+    first use of an unhashable result.  The `key` field of `Args` is not used by the `…P` functions. -/
+abbrev PKey := Str → Except Err Str
+
+/-- arguments in forms that cannot be used: `set(include)` / `set(omit)` raise TypeError,
+    `dict(to_pairs(rename))` raises `badRen`; such arguments are truthy -/
+structure Setup where
+  badInc : Bool := false
+  badOm : Bool := false
+  badRen : Option Err := none
+
+/-- the `for key, value in pairs` loop consumed to the end (`dict(sliced)`): the first pair (in the
+    order of `pairs`) whose key cannot be computed ends it with that exception -/
+def keysliceLoopP {V} (a : Args) (pk : PKey) : List (Str × V) → Except Err (List (Str × V))
+  | [] => .ok []
+  | (k, v) :: rest =>
+    match pk k with                                          -- `key = keyfunc(key)`
+    | .error x => .error x
+    | .ok k1 =>
+      match keysliceLoopP a pk rest with
+      | .error x => .error x
+      | .ok out =>
+        match keysliceOne { a with key := none } k1 with
+        | none => .ok out                                    -- `continue`
+        | some k2 => .ok ((k2, v) :: out)                    -- `yield`
+
+/-- `list(keyslice_pairs(...))` with the preparation that precedes the loop, line by line -/
+def keyslicePairsP {V} (su : Setup) (a : Args) (pk : PKey) (pairs : List (Str × V)) :
+    Except Err (List (Str × V)) :=
+  if (!a.inc.isEmpty || su.badInc) && (!a.om.isEmpty || su.badOm) then .error .typeError
+  else if su.badInc then .error .typeError                   -- `include = set(include)`
+  else if su.badOm then .error .typeError                    -- `omit = set(omit)`
+  else match su.badRen with                                  -- `rename = dict(to_pairs(rename))`
+    | some x => .error x
+    | none => keysliceLoopP a pk pairs
+
+/-- `Dict.slice` -/
+def sliceP {V} (su : Setup) (a : Args) (pk : PKey) (e : Elem V) : Except Err (List (Str × V)) :=
+  match keyslicePairsP su a pk (sortByKey e) with
+  | .error x => .error x
+  | .ok sliced => .ok (dictOf sliced)
+
+/-- outcome of `update_object`: the exception that came out (if any) and the object afterwards -/
+structure UpdResult (V : Type) where
+  exc : Option Err
+  obj : Obj V
+
+/-- `for attribute, value in data.items(): setattr(obj, attribute, value)` on an object whose
+    `setattr` raises `rej a` for some names (read-only property, `__slots__`, `__setattr__`) -/
+def writeAll {V} (rej : Str → Option Err) : Obj V → List (Str × V) → UpdResult V
+  | o, [] => ⟨none, o⟩
+  | o, (k, v) :: rest =>
+    match rej k with
+    | some x => ⟨some x, o⟩
+    | none => writeAll rej (o.set k v) rest
+
+/-- `Dict.update_object`: the slice first, completely; then the writes -/
+def updateObjectP {V} (su : Setup) (a : Args) (pk : PKey) (rej : Str → Option Err)
+    (e : Elem V) (o : Obj V) : UpdResult V :=
+  match sliceP su a pk e with
+  | .error x => ⟨some x, o⟩
+  | .ok data => writeAll rej o data
+
+/-- COUNTER-MODEL (not the code): selection and writes interleaved — each pair is keyed, renamed,
+    filtered and written before the next one is looked at (what iterating the `keyslice_pairs`
+    generator directly would do) -/
+def lazyLoop {V} (a : Args) (pk : PKey) (rej : Str → Option Err) : Obj V → List (Str × V) → UpdResult V
+  | o, [] => ⟨none, o⟩
+  | o, (k, v) :: rest =>
+    match pk k with
+    | .error x => ⟨some x, o⟩
+    | .ok k1 =>
+      match keysliceOne { a with key := none } k1 with
+      | none => lazyLoop a pk rej o rest
+      | some k2 =>
+        match rej k2 with
+        | some x => ⟨some x, o⟩
+        | none => lazyLoop a pk rej (o.set k2 v) rest
+
+def lazyUpdate {V} (su : Setup) (a : Args) (pk : PKey) (rej : Str → Option Err)
+    (e : Elem V) (o : Obj V) : UpdResult V :=
+  match keyslicePairsP su a (fun k => .ok k) ([] : List (Str × V)) with   -- the preparation alone
+  | .error x => ⟨some x, o⟩
+  | .ok _ => lazyLoop a pk rej o (sortByKey e)
+
+/-- `for attr in sorted(attributes) if hasattr(obj, attr)`: `hasattr` lets every exception but
+    AttributeError through.  Returns the names looked at and the exception, if one came out. -/
+def scanReads (bad : Str → Option Err) : List Str → List Str × Option Err
+  | [] => ([], none)
+  | x :: rest =>
+    match bad x with
+    | some err => ([x], some err)
+    | none => let r := scanReads bad rest; (x :: r.1, r.2)
+
+/-- `Dict.set_by_object` with everything that can raise before `self.set(final)` -/
+def setByObjectP {V} (S : Schema V) (su : Setup) (bad : Str → Option Err) (e : Elem V) (o : Obj V)
+    (a : Args) : SetByResult V :=
+  match su.badRen with                                       -- `rename = list(to_pairs(rename))`, `dict(rename)`
+  | some x => ⟨[], some x, e⟩
+  | none =>
+    if su.badOm then ⟨[], some .typeError, e⟩                -- `omit = list(omit)` / `key not in renamed`
+    else if (!a.inc.isEmpty || su.badInc) && !a.om.isEmpty then ⟨[], some .typeError, e⟩
+    else if su.badInc then ⟨[], some .typeError, e⟩          -- `include = set(include)` at the first `next()`
+    else
+      let r := scanReads bad (candidates S.fields a)
+      match r.2 with
+      | some err => ⟨r.1, some err, e⟩                       -- the comprehension is abandoned; `self.set` never runs
+      | none => setByObject S e o a
 
 end Flatland.C20
